@@ -1,4 +1,4 @@
-"""Child process started with `python -O`: runs one driver function of the harness over the jobs read from stdin and
+"""Child process started with `python -O` (or other interpreter flags, e.g. -bb): runs one driver function of the harness over the jobs read from stdin and
 writes the recorded traces to stdout (pickle).  Optimised mode removes assert statements from the library; what is
 recorded here is judged by the same specification as everything else."""
 import importlib
@@ -9,11 +9,13 @@ import sys
 def main():
     modname, fnname = sys.argv[1], sys.argv[2]
     jobs = pickle.load(sys.stdin.buffer)
-    assert False, 'this child must run with -O'      # removed under -O; stops a mis-started child
+    flags = sys.argv[3:]
+    if '-O' in flags or not flags:
+        assert False, 'this child must run with -O'      # removed under -O; stops a mis-started child
     fn = getattr(importlib.import_module(modname), fnname)
     from harness import isocheck
     out = isocheck._pool(fn, jobs)
-    sys.stdout.buffer.write(pickle.dumps({'optimised': not __debug__, 'out': out}))
+    sys.stdout.buffer.write(pickle.dumps({'optimised': not __debug__, 'bytes_warning': sys.flags.bytes_warning, 'out': out}))
 
 
 if __name__ == '__main__':
